@@ -16,7 +16,7 @@ E_DISC = 1003
 RULE = ("exhaustive product in the quick tier: discriminant widths {0,1,2,4,8,16} x owners {program id, each of its 256 "
         "single-bit flips, system program} x data {every length 0..w+3 with the right prefix, every single-byte deviation "
         "of the prefix (two values per position), the all-0xFF closed marker, a valid body} x writable x borrow state "
-        "(none / 1 shared / 7 shared or exclusive) x closed-by-the-framework first; plus random bodies. "
+        "(none / 1 shared / 7 shared or exclusive) x closed-by-the-framework first; the decisions repeated on accounts holding 0 / 1 / u64::MAX lamports; plus random bodies. "
         "non-trivial = the account passes validation or differs from a passing one in exactly one bit/byte/flag")
 TRUSTED = [
     "Coq 8.16.1 kernel", "extraction (ExtrOcamlBasic only) + runner/driver.ml",
@@ -29,8 +29,11 @@ ASSUMPTIONS = [
 ]
 
 
-def _case(w, owner, wr, cb, cbm, cl, data):
-    return [w] + DISC[w] + [PID[w]] * 32 + owner + [int(wr), int(cb), int(cbm), int(cl)] + data
+def _case(w, owner, wr, cb, cbm, cl, data, lam=0):
+    """lam: class of the account's balance (0: 5000, 1: ZERO, 2: u64::MAX, 3: 1 lamport) - state the admission decision
+    must not depend on; it rides in the can-borrow code (cb = 1 + 2 * lam), which the model reads as a boolean"""
+    cbc = (1 + 2 * lam) if (cb and not cl) else int(bool(cb))
+    return [w] + DISC[w] + [PID[w]] * 32 + owner + [int(wr), cbc, int(cbm), int(cl)] + data
 
 
 def gen_cases(rng, tier):
@@ -73,6 +76,13 @@ def gen_cases(rng, tier):
                     for (cb, cbm) in ((1, 1), (1, 0), (0, 0)):
                         for cl in (0, 1):
                             add(_case(w, o, wr, cb, cbm, cl, d))
+        # the same decisions on accounts holding no lamports / the maximum / one lamport
+        for lam in (1, 2, 3):
+            for d in datas[:6] + datas[-3:]:
+                for o in (pid, owners[2], owners[-1], [0] * 32):
+                    for wr in (0, 1):
+                        for (cb, cbm) in ((1, 1), (1, 0)):
+                            add(_case(w, o, wr, cb, cbm, 0, d, lam))
     extra = 300 if tier == "quick" else 30000
     for _ in range(extra):
         w = rng.choice([0, 1, 2, 4, 8, 16])
@@ -101,7 +111,7 @@ def _decode(c):
 def describe(c):
     w, d, pid, owner, wr, cb, cbm, cl, data = _decode(c)
     return {"disc_width": w, "discriminant": d, "owner_is_program": owner == pid,
-            "owner": owner, "writable": bool(wr), "can_borrow": bool(cb), "can_borrow_mut": bool(cbm),
+            "owner": owner, "writable": bool(wr), "lamports_class": ((cb - 1) // 2) if cb else 0, "can_borrow": bool(cb), "can_borrow_mut": bool(cbm),
             "closed_first": bool(cl), "data": data}
 
 
